@@ -14,6 +14,8 @@
   fstr        every `"..{}..".format(..)` with plain fields becomes an f-string
   npfull      `import numpy as np` becomes `import numpy`, every `np.` becomes `numpy.`
   ternary     every `x = a if c else b` becomes a two-armed if statement
+  comp2loop   every `x = [f(a) for a in s]` (one generator, undecorated function) becomes `x = []; for _cv in s: x.append(f(_cv))`
+  kwcalls     every call of a module-level function of the same module passes its positional arguments by keyword
 """
 import ast, os, shutil, subprocess, sys, tempfile, builtins
 HERE = os.path.dirname(os.path.abspath(__file__))
@@ -238,6 +240,82 @@ class Ternary(ast.NodeTransformer):
         return node
 
 
+class Comp2Loop(ast.NodeTransformer):
+    def __init__(self):
+        self.in_decorated = 0
+        self.n = 0
+        self.in_func = 0
+
+    def visit_FunctionDef(self, node):
+        dec = _decorated(node)
+        self.in_decorated += dec
+        self.in_func += 1
+        self.generic_visit(node)
+        self.in_func -= 1
+        self.in_decorated -= dec
+        return node
+
+    def visit_Lambda(self, node):
+        return node
+
+    def visit_Assign(self, node):
+        v = node.value
+        if self.in_func and not self.in_decorated and len(node.targets) == 1 and isinstance(node.targets[0], ast.Name) and isinstance(v, ast.ListComp) \
+                and len(v.generators) == 1 and not v.generators[0].is_async \
+                and not any(isinstance(x, (ast.ListComp, ast.GeneratorExp, ast.SetComp, ast.DictComp, ast.Lambda, ast.NamedExpr)) for x in ast.walk(v.elt)) \
+                and not any(isinstance(x, ast.Name) and x.id == node.targets[0].id for x in ast.walk(v)):
+            g = v.generators[0]
+            names = {x.id for x in ast.walk(g.target) if isinstance(x, ast.Name)}
+            self.n += 1
+            ren = {nm: "_cv%d_%s" % (self.n, nm) for nm in names}
+
+            class R(ast.NodeTransformer):
+                def visit_Name(self, x):
+                    if x.id in ren:
+                        return ast.copy_location(ast.Name(ren[x.id], x.ctx), x)
+                    return x
+            tgt = R().visit(g.target)
+            elt = R().visit(v.elt)
+            ifs = [R().visit(c) for c in g.ifs]
+            t = node.targets[0].id
+            body = [ast.Expr(ast.Call(ast.Attribute(ast.Name(t, ast.Load()), "append", ast.Load()), [elt], []))]
+            for c in reversed(ifs):
+                body = [ast.If(test=c, body=body, orelse=[])]
+            return [ast.Assign([ast.Name(t, ast.Store())], ast.List([], ast.Load()), lineno=node.lineno),
+                    ast.For(target=tgt, iter=g.iter, body=body, orelse=[], lineno=node.lineno)]
+        return node
+
+
+class KwCalls(ast.NodeTransformer):
+    def __init__(self):
+        self.funcs = {}
+
+    def visit_Module(self, node):
+        for n in node.body:
+            if isinstance(n, ast.FunctionDef) and not n.decorator_list and not n.args.vararg and not n.args.kwarg and not n.args.posonlyargs:
+                self.funcs[n.name] = [a.arg for a in n.args.args]
+        shadow = set()
+        for n in ast.walk(node):
+            if isinstance(n, ast.arg) and n.arg in self.funcs:
+                shadow.add(n.arg)
+            if isinstance(n, ast.Name) and isinstance(n.ctx, ast.Store) and n.id in self.funcs:
+                shadow.add(n.id)
+        for k in shadow:
+            self.funcs.pop(k, None)
+        self.generic_visit(node)
+        return node
+
+    def visit_Call(self, node):
+        self.generic_visit(node)
+        if isinstance(node.func, ast.Name) and node.func.id in self.funcs and node.args and not any(isinstance(a, ast.Starred) for a in node.args) \
+                and not any(k.arg is None for k in node.keywords):
+            ps = self.funcs[node.func.id]
+            if len(node.args) <= len(ps):
+                node.keywords = [ast.keyword(arg=p, value=a) for p, a in zip(ps, node.args)] + node.keywords
+                node.args = []
+        return node
+
+
 def collect_private(root):
     """names of private (single leading underscore) functions defined at module level anywhere in the package"""
     for r, _, files in os.walk(root):
@@ -301,7 +379,7 @@ class RenameKeywords(ast.NodeTransformer):
 PARAMS_OF = {}
 
 
-NEW_KINDS = {"annotate": Annotate, "logdbg": LogDebug, "docstr": DocStr, "fstr": FString, "npfull": NpFull, "ternary": Ternary}
+NEW_KINDS = {"annotate": Annotate, "logdbg": LogDebug, "docstr": DocStr, "fstr": FString, "npfull": NpFull, "ternary": Ternary, "comp2loop": Comp2Loop, "kwcalls": KwCalls}
 
 
 def transform(kind, src):
@@ -325,7 +403,7 @@ def transform(kind, src):
 
 
 def main():
-    kinds = [a for a in sys.argv[1:] if not a.startswith("--")] or ["unparse", "rename", "flipif", "flipcmp", "hoistret", "renpriv", "renparam", "annotate", "logdbg", "docstr", "fstr", "npfull", "ternary"]
+    kinds = [a for a in sys.argv[1:] if not a.startswith("--")] or ["unparse", "rename", "flipif", "flipcmp", "hoistret", "renpriv", "renparam", "annotate", "logdbg", "docstr", "fstr", "npfull", "ternary", "comp2loop", "kwcalls"]
     collect_private("/repo/sigpy")
     bad = 0
     for kind in kinds:
